@@ -415,6 +415,15 @@ Fixpoint sel_repeated (s : selection) : bool :=
   | SSpread _ _ body => has_repeated_inline None body || existsb sel_repeated body
   end.
 
+(** a response key selected more than once in one selection set *)
+Definition repeats_key (l : list selection) : bool := negb (nodupb (map fst (direct_fields l))).
+Fixpoint sel_repeats_key (s : selection) : bool :=
+  match s with
+  | SField _ _ sub => repeats_key sub || existsb sel_repeats_key sub
+  | SInline _ sub => repeats_key sub || existsb sel_repeats_key sub
+  | SSpread _ _ body => repeats_key body || existsb sel_repeats_key body
+  end.
+
 Fixpoint type_features (S : schema) (t : gqltype) : list string :=
   match t with
   | TNamed n => match lookup_type S n with
@@ -425,6 +434,35 @@ Fixpoint type_features (S : schema) (t : gqltype) : list string :=
                 end
   | TList t' => "list" :: type_features S t'
   | TNonNull t' => type_features S t'
+  end.
+
+(** wrappers of the types of the selected fields *)
+Fixpoint list_depth (t : gqltype) : nat :=
+  match t with TNamed _ => O | TList t' => Datatypes.S (list_depth t') | TNonNull t' => list_depth t' end.
+Fixpoint has_nullable_item (t : gqltype) (in_list : bool) (nn : bool) : bool :=
+  match t with
+  | TNamed _ => in_list && negb nn
+  | TNonNull t' => has_nullable_item t' in_list true
+  | TList t' => has_nullable_item t' true false
+  end.
+Definition wrap_features (S : schema) (ft : gqltype) : list string :=
+  ((match ft with TNonNull _ => ["non-null-field"] | _ => ["nullable-field"] end) ++
+   (if Nat.leb 2 (list_depth ft) then ["list-of-list"] else []) ++
+   (if has_nullable_item ft false false then ["nullable-list-item"] else []) ++
+   type_features S ft)%list.
+Fixpoint selected_type_features (S : schema) (fuel : nat) (t : name) (sels : list selection) : list string :=
+  match fuel with
+  | O => []
+  | Datatypes.S f =>
+      flat_map (fun s => match s with
+                         | SField _ fn sub =>
+                             match field_type S t fn with
+                             | Some ft => (wrap_features S ft ++ selected_type_features S f (unwrap ft) sub)%list
+                             | None => []
+                             end
+                         | SInline c sub => selected_type_features S f (inline_cond t c) sub
+                         | SSpread _ c body => selected_type_features S f c body
+                         end) sels
   end.
 
 Definition union_cond (S : schema) (sels : list selection) : bool :=
@@ -544,6 +582,7 @@ Definition check (c : sexp) : sexp :=
               let d := match link_doc d0 with Some d' => d' | None => d0 end in
               let is_linked := match link_doc d0 with Some _ => true | None => false end in
               if valid && negb is_linked then v_bad "valid-document-does-not-link"
+              else if valid && decl_safe Sch d && excl_decl_clash Sch d then v_bad "decl-safe-does-not-exclude-clash"
               else
               let m := generate no_quirks Sch valid d in
               let in_env := valid && env Sch d in
@@ -584,7 +623,7 @@ Definition check (c : sexp) : sexp :=
                                       let feats := dedup_str
                                         (flat_map (fun o => flat_map sel_features (op_sels o)) (d_ops d) ++
                                          flat_map (fun o => match root_type Sch o with
-                                                            | Some r => []
+                                                            | Some r => selected_type_features Sch (Datatypes.S (sels_size (op_sels o))) r (op_sels o)
                                                             | None => []
                                                             end) (d_ops d)) in
                                       let exp_frag :=
@@ -602,6 +641,7 @@ Definition check (c : sexp) : sexp :=
                                         end in
                                       v_ok (["valid"; "generated"] ++
                                             (if in_env then ["in-envelope"] else ["outside-envelope"]) ++
+                                            (if decl_safe Sch d then ["decl-safe"] else ["decl-unsafe-by-names"]) ++
                                             (if cb then ["compiles"] else ["does-not-compile"]) ++
                                             (if cb && negb (order_free d) then ["decode-not-compared-field-order-dependent"] else []) ++
                                             (if shape_same then ["shape-same"] else ["shape-differs"]) ++
@@ -609,6 +649,8 @@ Definition check (c : sexp) : sexp :=
                                             (if existsb (fun o => existsb sel_repeated (op_sels o) || has_repeated_inline None (op_sels o)) (d_ops d)
                                              then ["merged-inline-fragments"] else []) ++
                                             (if existsb (fun o => union_cond Sch (op_sels o)) (d_ops d) then ["union-condition"] else []) ++
+                                            (if existsb (fun o => repeats_key (op_sels o) || existsb sel_repeats_key (op_sels o)) (d_ops d)
+                                             then ["repeated-key"] else []) ++
                                             (match p_enums p with [] => [] | _ => ["enum"] end) ++
                                             feats ++
                                             (if exp_frag then ["nontrivial"] else []))
